@@ -61,6 +61,12 @@ func New(t *tar.Reader) *Fs {
 		}
 		fs.files[d][f] = file
 
+		if hdr.Typeflag == tar.TypeDir {
+			dirname := filepath.Join(d, f)
+			if _, ok := fs.files[dirname]; !ok {
+				fs.files[dirname] = make(map[string]*File)
+			}
+		}
 	}
 
 	if fs.files[afero.FilePathSeparator] == nil {
